@@ -160,6 +160,7 @@ func (m *w2mon) onReceived(d *gkDeco, r *recvPartObs) {
 	if r.N != want {
 		return
 	}
+	s.c13w2Received(r)
 	x := m.model(d.source, r.Desc.Name)
 	if x.Hash != r.Desc.Hash {
 		x.Hash, x.Size, x.Written = r.Desc.Hash, r.Desc.Size, nil
@@ -428,6 +429,7 @@ func (s *Sim) w2BeforeOp(op *PeerOp) {
 }
 
 func (s *Sim) w2AfterOp(op *PeerOp, pc *peerCall) {
+	s.c13w2AfterOp(op, pc)
 	if !s.on("C15") {
 		return
 	}
